@@ -34,6 +34,14 @@ def run(ctx):
             _tempo.judge(ctx, cases, "C01", "seeded wide-domain maps", queries=_queries)
             cases = []
     _tempo.judge(ctx, cases, "C01", "seeded wide-domain maps", queries=_queries)
+    # charts whose later tempo events sit hours and days into the chart (the property's range is 10^6 s)
+    cases = []
+    for k in range(ctx.pick(60, 1500)):
+        res, tempo, pts = tm.marathon_map(r)
+        c = tm.chart_case_from_map(r, f"C01-day{k}", res, tempo, pts)
+        c["pts"] = pts
+        cases.append(c)
+    _tempo.judge(ctx, cases, "C01", "seeded maps with tempo changes days into the chart", queries=_queries)
     ctx.assumptions += [
         "float64 is observed, not modelled: the bound is half a microsecond plus 1 ns of float slack per traversed segment, for times below 10^6 s",
         "floor-division witnesses are supplied by the harness and verified by TLC (q*d <= n < (q+1)*d)",
